@@ -75,7 +75,10 @@ func rpcDoShape(c *engine.Ctx, rule string) *rpcDo {
 	for _, dec := range engine.CallsTo(s.handler, false, "(bin.Decoder).Decode") {
 		engine.Instrs(s.handler, func(i ssa.Instruction) {
 			if st, ok := i.(*ssa.Store); ok && engine.Unwrap(st.Val) == dec.Value() {
-				s.resCell = cell(st.Addr)
+				// a variable of Do captured by the handler, not the handler's own result slot
+				if a, isA := cell(st.Addr).(*ssa.Alloc); isA && a.Parent() == do {
+					s.resCell = a
+				}
 			}
 		})
 	}
